@@ -2,6 +2,7 @@ package main
 
 import (
 	"bytes"
+	"os/exec"
 	"fmt"
 	"go/ast"
 	"go/printer"
@@ -240,6 +241,8 @@ func sensitivitySweep(w *World, spec *propertySpec, r *Report, kf *knownFile, se
 			baseline[o.Rule+"|"+o.Construct] = true
 		}
 	}
+	baselineFile := writeBaselineKeys(baseline)
+	defer os.Remove(baselineFile)
 	workers := runtime.NumCPU() / 3
 	if workers < 1 {
 		workers = 1
@@ -255,7 +258,7 @@ func sensitivitySweep(w *World, spec *propertySpec, r *Report, kf *knownFile, se
 		go func() {
 			defer wg.Done()
 			for v := range ch {
-				flagged, compiled, why := runVariant(w.Repo, spec, v, baseline)
+				flagged, compiled, why := runVariantProc(w.Repo, spec.ID, v, baselineFile)
 				mu.Lock()
 				switch {
 				case !compiled:
@@ -304,6 +307,7 @@ func runVariant(repo string, spec *propertySpec, v variant, baseline map[string]
 	}
 	r := newReport(spec.ID)
 	for _, rule := range spec.Rules {
+		resetFlatRoots()
 		rule(w, r)
 	}
 	for id, ri := range r.rules {
@@ -317,4 +321,80 @@ func runVariant(repo string, spec *propertySpec, v variant, baseline map[string]
 		}
 	}
 	return false, true, ""
+}
+
+// The analyser keeps per-run state in package variables (canonical-name mode, substitution
+// stack), so variants are analysed in child processes, never in goroutines of one process.
+
+func writeBaselineKeys(baseline map[string]bool) string {
+	f, err := os.CreateTemp("", "ordalint-baseline-*.txt")
+	if err != nil {
+		machineryFailure("sweep: %v", err)
+	}
+	defer f.Close()
+	for k := range baseline {
+		fmt.Fprintln(f, k)
+	}
+	return f.Name()
+}
+
+func runVariantProc(repo, specID string, v variant, baselineFile string) (flagged, compiled bool, why string) {
+	f, err := os.CreateTemp("", "ordalint-variant-*.go")
+	if err != nil {
+		machineryFailure("sweep: %v", err)
+	}
+	f.Write(v.Src)
+	f.Close()
+	defer os.Remove(f.Name())
+	self, _ := os.Executable()
+	cmd := exec.Command(self, "-repo", repo, "-property", specID, "-variant-file", v.File, "-variant-src", f.Name(), "-variant-baseline", baselineFile)
+	out, _ := cmd.Output()
+	line := strings.TrimSpace(string(out))
+	if i := strings.LastIndex(line, "\n"); i >= 0 {
+		line = line[i+1:]
+	}
+	switch {
+	case strings.HasPrefix(line, "VARIANT nocompile"):
+		return false, false, ""
+	case strings.HasPrefix(line, "VARIANT unflagged"):
+		return false, true, ""
+	case strings.HasPrefix(line, "VARIANT flagged"):
+		return true, true, strings.TrimSpace(strings.TrimPrefix(line, "VARIANT flagged"))
+	}
+	// the child died (panic in a rule): counts as flagged-by-crash
+	return true, true, "analyser failure on the variant: " + line
+}
+
+// variantChild is the entry point of the child process.
+func variantChild(repo, specID, file, srcPath, baselinePath string) {
+	src, err := os.ReadFile(srcPath)
+	if err != nil {
+		machineryFailure("variant: %v", err)
+	}
+	baseline := map[string]bool{}
+	if b, err := os.ReadFile(baselinePath); err == nil {
+		for _, l := range strings.Split(string(b), "\n") {
+			if l != "" {
+				baseline[l] = true
+			}
+		}
+	}
+	var spec *propertySpec
+	if specID == "ALL" {
+		spec = unionSpec()
+	} else {
+		spec = registry[specID]
+	}
+	if spec == nil {
+		machineryFailure("variant: unknown property %q", specID)
+	}
+	flagged, compiled, why := runVariant(repo, spec, variant{File: file, Src: src}, baseline)
+	switch {
+	case !compiled:
+		fmt.Println("VARIANT nocompile")
+	case flagged:
+		fmt.Println("VARIANT flagged " + why)
+	default:
+		fmt.Println("VARIANT unflagged")
+	}
 }
